@@ -252,6 +252,7 @@ def run(ctx):
     _static(ctx)
     # ---- dynamic half
     _tiny_sweep(ctx)
+    _history_sweep(ctx)
     R = recipes.recipes()
     inv = _public_inventory()
     driven = set(k.split("[")[0] for k in R)
@@ -295,6 +296,9 @@ def replay(ctx, obj):
     c = obj["case"]
     if c["kind"] == "static":
         _static(ctx)
+        return
+    if c["kind"] == "hist":
+        _history_sweep(ctx, only=c["fn"])
         return
     if c["kind"] == "tiny":
         fn, mk = _tiny_calls()[c["fn"]]
@@ -375,3 +379,45 @@ def _tiny_sweep(ctx):
                     ctx.violation("unlinked-at-runtime", {"kind": "tiny", "fn": name, "n": n, "dtype": dt, "shape": shape},
                                   {"outcome": out, "error": str(val)[:200]}, match="unlinked-at-runtime:%s" % name.split("[")[0])
     ctx.extra["tiny_input_calls"] = n_calls
+
+
+# ---- determinism across call HISTORIES: the same call must return the same result whatever was called before it in the
+# process (a module-level cache, a mutable default argument keyed by content, a memo keyed by id()).  Two fresh processes run
+# every recipe once per world in opposite orders; the results must agree call by call.
+def _first_pass(item):
+    order, worlds, seed = item
+    R = recipes.recipes()
+    out = {}
+    for name in order:
+        fn, mk = R[name]
+        for integral in worlds:
+            W = recipes.World(random.Random(seed), integral)
+            args0, kw0 = mk(W)
+            args = [_variant(a, "C") for a in args0]
+            args = [list(a) if isinstance(a, list) else a for a in args]
+            o, val, _ = monitor.call(fn, tuple(args), dict(kw0), budget=400000, wall=40)
+            out["%s|%d" % (name, int(integral))] = {"outcome": o, "value": _norm(val) if o == "returned" else None}
+    return out
+
+
+def _history_sweep(ctx, only=None):
+    import multiprocessing as mp
+    names = sorted(recipes.recipes())
+    seed = ctx.seed * 1000 + 7
+    items = [(names, (False, True), seed), (list(reversed(names)), (True, False), seed)]
+    with mp.get_context("fork").Pool(2, maxtasksperchild=1) as pool:
+        a, b = pool.map(_first_pass, items, chunksize=1)
+    diff = 0
+    for key in sorted(a):
+        name = key.split("|")[0]
+        if only is not None and name != only:
+            continue
+        ra, rb = a[key], b.get(key)
+        same = rb is not None and ra["outcome"] == rb["outcome"] and (ra["outcome"] != "returned" or _same(ra["value"], rb["value"]))
+        if not same:
+            diff += 1
+            ctx.violation("history-dependent(%s)" % name.split("[")[0], {"kind": "hist", "fn": name},
+                          {"call": key, "first_order": json.dumps(ra)[:200], "reverse_order": json.dumps(rb)[:200]},
+                          match="history-dependent:%s" % name.split("[")[0])
+    ctx.extra["history_sweep_calls"] = 2 * len(a)
+    return diff
